@@ -214,7 +214,9 @@ def run_case(case, ka, T=1.0):
                 state['nA'] += 1
                 F = frame(framing, count, req, fill=0)
                 out = [(D0, ('data', F[:p]))]
-                if endA == 'exception' and framing != 'aa55':
+                if endA == 'success-fragmented':
+                    out.append((.2 * T, ('data', F[p:])))
+                elif endA == 'exception' and framing != 'aa55':
                     out.append((.3 * T, ('data', wire.rtu_exc_resp(0xF7, 3, 2) if framing == 'rtu' else wire.tcp_exc_resp(req[:2], 0xF7, 3, 2))))
                 elif endA == 'late-remainder':
                     out.append((1.2 * T, ('data', F[p:])))
@@ -228,6 +230,8 @@ def run_case(case, ka, T=1.0):
                     return [(D0, ('data', F[p:]))]
                 if txB == 'first-piece-only':
                     return [(D0, ('data', F[:p]))]
+                if txB == 'frag2-slow':
+                    return [(.5 * T, ('data', F[:p])), (.95 * T, ('data', F[p:]))]
             return [(D0, ('data', F))]
         peer = PlanPeer(plan)
         loop = KLoop(peer)
@@ -244,6 +248,9 @@ def run_case(case, ka, T=1.0):
         vio += general_oracle(framing, count, res, peer.sent[nA:], reads) if len(peer.sent) > nA else []
         if res[0] == 'hang':
             vio.append(('terminates', res[1]))
+        if txB in ('frag2', 'frag2-slow') and not (res[0] == 'ok' and len(peer.sent) - nA == 1):
+            # B's own answer arrives in two pieces within its timeout: positive obligation, whatever request A left behind
+            vio.append(('reassembled-exactly', f'second request after {endA}: {res[0]} with {len(peer.sent) - nA} transmissions'))
         return vio, (res[0], len(peer.sent) - nA)
     raise ValueError(kind)
 
@@ -264,8 +271,8 @@ def cases_for(framing, tier):
         L = len(frame(framing, count, b'\0\0'))
         ps = range(MINH[framing], L) if count <= 3 else [MINH[framing], L // 2, L - 1]
         for p in ps:
-            for endA in ('exception', 'timeout', 'late-remainder'):
-                for txB in ('frag2', 'rem-shaped', 'first-piece-only', 'full'):
+            for endA in ('exception', 'timeout', 'late-remainder', 'success-fragmented'):
+                for txB in ('frag2', 'frag2-slow', 'rem-shaped', 'first-piece-only', 'full'):
                     for same in (True, False):
                         yield ('cross', framing, count, p, endA, txB, same)
     for count in ([1, 3, 61, 125] if tier == 'thorough' else [3]):
